@@ -28,15 +28,27 @@ def run_traced(bars, hom_deg=0):
     """run the real constructor on floats; returns (critical_pairs, shortcut_executed)"""
     from persim.landscapes import PersLandscapeExact
     line = _shortcut_line()
-    hit = [False]
+    hits = [0]             # executions of the repeated-bar shortcut
+    genuine = {}           # (depth index, b, d) -> how many bars equal to the current (b, d) the work list really held
 
     def tracer(frame, event, arg):
         if frame.f_code.co_name != "compute_landscape":
             return None
 
         def local(fr, ev, a):
-            if ev == "line" and fr.f_lineno == line:
-                hit[0] = True
+            if ev == "line":
+                loc = fr.f_locals
+                if "A" in loc and "b" in loc and "d" in loc:
+                    try:
+                        b, d = loc["b"], loc["d"]
+                        c = sum(1 for it in loc["A"] if len(it) == 2 and it[0] == b and it[1] == d)
+                        if c:
+                            key = (loc.get("landscape_idx"), float(b), float(d))
+                            genuine[key] = max(genuine.get(key, 0), c)
+                    except Exception:
+                        pass
+                if fr.f_lineno == line:
+                    hits[0] += 1
             return local
         return local
     old = sys.gettrace()
@@ -47,7 +59,8 @@ def run_traced(bars, hom_deg=0):
             P = PersLandscapeExact(dgms=[np.array(bars, dtype=float)] if hom_deg == 0 else [np.zeros((1, 2)) + [[0, 1]]] * hom_deg + [np.array(bars, dtype=float)], hom_deg=hom_deg)
     finally:
         sys.settrace(old)
-    return P.critical_pairs, hit[0]
+    # attributed to the known repeated-bar shortcut only if every execution of it is matched by a bar that really was repeated in the work list
+    return P.critical_pairs, (hits[0] >= 1 and hits[0] <= sum(genuine.values()))
 
 
 def numeric_mismatch(bars, cps):
@@ -171,8 +184,37 @@ def _to_float(s):
     return float(Fraction(s)) if "/" in s else float(s)
 
 
+def _replay_ctor(a):
+    """search the degree-selection family for an input on which the real constructor uses another diagram than dgms[hom_deg]"""
+    from persim.landscapes import PersLandscapeExact
+    rng = random.Random(5)
+    empties = [lambda: np.zeros((0, 2)), lambda: np.array([]), lambda: []]
+    with warnings.catch_warnings():
+        warnings.simplefilter("ignore")
+        for _ in range(400):
+            m = rng.randint(1, 4)
+            dg = [rng.choice(empties)() if rng.random() < 0.4 else np.array([[float(b), b + 1.0 + i] for b in range(rng.randint(1, 3))]) for i in range(m)]
+            for h in range(m):
+                if len(dg[h]) == 0:
+                    continue
+                want = PersLandscapeExact(dgms=[np.array(dg[h])], hom_deg=0).critical_pairs
+                try:
+                    got = PersLandscapeExact(dgms=list(dg), hom_deg=h).critical_pairs
+                except Exception as ex:
+                    got = "raised %r" % (ex,)
+                if got != want:
+                    return True, {"input": {"dgms": [np.array(x).tolist() for x in dg], "hom_deg": h}, "observed": got, "expected": want}, None, \
+                        "hom_deg=%d does not select dgms[%d] from %s" % (h, h, [np.array(x).tolist() for x in dg])
+    return False, None, None, None
+
+
 def run(rep, tier, seed):
     t0 = time.time()
+    # deductive part: the constructor selects dgms[hom_deg] (the sweep itself is summarised there and decided by E2 below)
+    from contracts.c03_ctor import all_contracts
+    from vlib.deductive import run_contracts
+    cs, table = all_contracts(tier)
+    run_contracts(rep, cs, table, tier=tier, pid="C03", replayers=[(r"PersLandscapeExact.__init__", _replay_ctor)])
     total_paths = 0
     samples = []
     for n, presorted, budget in ([(1, False, 30), (2, False, 30), (3, False, 240)] + ([(4, True, 1500)] if tier == "thorough" else [])):
@@ -253,8 +295,32 @@ def run(rep, tier, seed):
         if a != b:
             rep.violation("a trailing infinite bar changes the landscape", "landscape:inf-bar", {"input": {"bars": [[0, 3], [1, 4], [0, "inf"]]}, "observed": a, "expected": b})
         evals += 2
+        # the requested degree selects the diagram used whatever the other degrees hold (empty degrees, in either empty form, included)
+        empties = [lambda: np.zeros((0, 2)), lambda: np.array([]), lambda: []]
+        for _ in range(40 if tier == "quick" else 600):
+            m = rng.randint(2, 4)
+            dg = []
+            for _i in range(m):
+                if rng.random() < 0.4:
+                    dg.append(rng.choice(empties)())
+                else:
+                    nb = rng.randint(1, 3)
+                    bb = [float(rng.randint(0, 5)) for _j in range(nb)]
+                    dg.append(np.array([[b, b + rng.randint(1, 4) + 0.5 * _i] for b in bb]))
+            for h in range(m):
+                if len(dg[h]) == 0:
+                    continue
+                evals += 1
+                want = PersLandscapeExact(dgms=[np.array(dg[h])], hom_deg=0).critical_pairs
+                try:
+                    got = PersLandscapeExact(dgms=list(dg), hom_deg=h).critical_pairs
+                except Exception as ex:
+                    got = "raised %r" % (ex,)
+                if got != want:
+                    rep.violation("hom_deg=%d does not select dgms[%d] from %s: got %s, landscape of dgms[%d] alone is %s" % (h, h, [np.array(x).tolist() for x in dg], got, h, want),
+                                  "landscape:hom_deg", {"input": {"dgms": [np.array(x).tolist() for x in dg], "hom_deg": h}, "observed": got, "expected": want})
     rep.bounded("exact landscape vs k-th largest tent (run time)", "all 3-subsets (+%s 4-subsets) of a 14-point lattice in random order; random diagrams of 1..7 bars at scales 1e-3..1e3 with ties and repeats" % ("all" if tier == "thorough" else "400"),
-                evals, len(distinct), "compared at every candidate breakpoint, midpoints and outside the support, all depths; order of critical points; hom_deg selection; trailing infinite bar", samples=[list(map(list, c)) for c in combos[:2]])
+                evals, len(distinct), "compared at every candidate breakpoint, midpoints and outside the support, all depths; order of critical points; hom_deg selection among 2..4 degrees some of them empty; trailing infinite bar", samples=[list(map(list, c)) for c in combos[:2]])
     rep.assume("bounded: sizes <= 3 bars exhaustively (4 in sweep order, thorough, best effort); the unbounded sweep invariant is out of reach (DESIGN C03) - C03 is NOT proved",
                "landscape functions have slopes in {-1,0,1}: the per-path query uses this to stay linear", "D12 sorted() on proxies is CPython's own")
     rep.trust("CPython executing the real compute_landscape on pysym proxies", "z3 (QF_LRA)")
